@@ -51,7 +51,7 @@ def gen_case(rng, tier):
             f = rng.randrange(len(facts))
             op['expr'] = {'kind': 'instance', 'fact': f, 'base': rng.randrange(4)}
         elif facts and x < 0.7:
-            op['expr'] = {'kind': 'arith', 'fact': rng.randrange(len(facts))}
+            op['expr'] = {'kind': 'arith', 'fact': rng.randrange(len(facts)), 'var': rng.choice([0, 0, 1])}
         else:
             op['expr'] = {'kind': 'path', 'path': rng.choice(STRUCT_PATHS)}
         ops.append(op)
@@ -80,7 +80,7 @@ def expr_text(e, facts):
         return '%s instance of element(*, %s%s)' % (f['path'], t, '?' if f.get('nil') else '')
     kind = G.TYPES[f['type']][1]
     if kind in ('int', 'Decimal', 'float'):
-        return '%s + 1' % f['path']
+        return ('%s + 1.5' if e.get('var') else '%s + 1') % f['path']
     um = G.union_member(f['type'], f['lex']) if kind == 'union' and not f.get('nil') else None
     if um is not None and um[1] in ('integer', 'int', 'short', 'decimal', 'double'):
         # arithmetic and value comparison on a node whose type is a union and whose value is numeric
@@ -310,7 +310,7 @@ def run_case(case, world):
             kind = G.TYPES[tkey][1]
             stats['typed_value_checks'] += 1
             try:
-                decoded = [] if f.get('nil') else xsd_type_of(sk, f['type'], f.get('xsi')).decode(f['lex'])
+                decoded = [] if f.get('nil') else xsd_type_of(sk, f['type'], f.get('xsi')).decode(f.get('eff', f['lex']))
             except Exception as ex:
                 decoded = None
                 world.event(('decode-failed', repr(ex)[:80]))
@@ -340,11 +340,11 @@ def run_case(case, world):
                         '%s is %r' % (text, outcome[1]), feats + extra)
         # (ii-b) arithmetic and comparison use the typed value
         if sk is not None and e['kind'] == 'arith' and cfg['facts'] and (built[0] or sk != 'A') and ref == outcome \
-                and (text.endswith(' + 1') or text.endswith(' lt 1000000')):
+                and (text.endswith(' + 1') or text.endswith(' + 1.5') or text.endswith(' lt 1000000')):
             f = cfg['facts'][e['fact'] % len(cfg['facts'])]
             stats['typed_value_checks'] += 1
             try:
-                decoded = xsd_type_of(sk, f['type'], f.get('xsi')).decode(f['lex'])
+                decoded = xsd_type_of(sk, f['type'], f.get('xsi')).decode(f.get('eff', f['lex']))
             except Exception:
                 decoded = None
             numeric = isinstance(decoded, (int, float, decimal.Decimal)) and not isinstance(decoded, bool)
@@ -357,11 +357,17 @@ def run_case(case, world):
                     extra.append('union-value-of-a-later-member')
                 violate('TYPED_VALUE', 'typed-arithmetic-raises:%s' % f['type'],
                         '%s (%r, type %s, decoded %r) raises %r' % (text, f['lex'], f['type'], decoded, outcome[:3]), feats + extra)
-            elif text.endswith(' + 1'):
+            elif text.endswith(' + 1') or text.endswith(' + 1.5'):
                 got = items[0] if len(items) == 1 else None
-                want = decoded + 1
+                if text.endswith(' + 1'):
+                    want = decoded + 1
+                else:
+                    want = decoded + (1.5 if isinstance(decoded, float) else decimal.Decimal('1.5'))
                 ok = got is not None and not isinstance(got, (str, bool)) and same_value(got, want) and \
                     isinstance(got, float) == isinstance(want, float)
+                if ok and sk == 'A' and f['type'] in ('float', 'double') and not f.get('xsi'):
+                    # xs:float + xs:decimal is an xs:float, xs:double + xs:decimal an xs:double
+                    ok = type(got).__name__.startswith('Float') == (f['type'] == 'float')
                 if not ok:
                     violate('TYPED_VALUE', 'typed-arithmetic-differs:%s' % f['type'],
                             '%s (%r, type %s) gives %r (%s), the typed value gives %r' % (
